@@ -6,6 +6,7 @@ package main
 import (
 	"fmt"
 	"math/rand"
+	"strings"
 
 	"github.com/nelhage/taktician/tak"
 )
@@ -190,6 +191,17 @@ func c01Position(c *ctx, p *tak.Position, every int, nbad int) {
 }
 
 func runC01(c *ctx) {
+	if c.tier == "replay" {
+		rf := readReplay(c)
+		parts := strings.Split(rf.Input, ";")
+		p, err := decodeEnc(parts[0])
+		if err != nil || len(parts) < 2 {
+			fmt.Println("bad replay input")
+			return
+		}
+		emitC01(c, p, decodeMove(parts[1]))
+		return
+	}
 	r := c.r
 	games := 40 * c.scale
 	for g := 0; g < games; g++ {
